@@ -246,7 +246,12 @@ LIMITS = r'''
   plane-wave and dual-basis jellium was first demanded on every grid (for sheared cells with an even axis
   it genuinely fails: recorded as finding D24, not a false alarm); `jw_get_ground_state_at_particle_number`
   on an identically zero sector block makes ARPACK raise - the property speaks about the convention of
-  the returned state only, so such blocks are skipped and counted in the evidence.
+  the returned state only, so such blocks are skipped and counted in the evidence.  A check that
+  `DOCIHamiltonian.__getitem__` returns the entries of `n_body_tensors` alarmed on the unchanged tree: that
+  indexing is deliberately a view of hc / hr1 / hr2 (pinned value by value in the library's own tests), while
+  the parent tensors are one non-unique antisymmetrised choice; the property's "indexing" clause is about
+  tensors that *are* the coefficient arrays, so the check was removed (DOCI arithmetic and the parent tensors
+  stay judged through the pair-qubit operator).
 
 ---------------------------------------------------------------------------------------------
 
